@@ -168,7 +168,7 @@ ImplOutcome(t) ==
     [] t.sb64 \in NonCanon \/ ~SigValid(t) -> "VerificationFailed"   \* Base64 / InvalidSignature
     [] t.pb64 \in NonCanon \/ t.pjson # "obj" -> "VerificationFailed"
     [] t.exp \in {"absent", "null", "str", "neg"} -> "VerificationFailed"   \* MissingRequiredClaim(exp)
-    [] NBF_CHECKED /\ t.nbf = "str" -> "VerificationFailed"          \* InvalidClaimFormat(nbf)
+    [] NBF_CHECKED /\ t.nbf \in {"str", "null"} -> "VerificationFailed"   \* InvalidClaimFormat(nbf); null is not "absent" for jsonwebtoken's numeric claims
     [] t.exp \in {"gone", "old"} -> "VerificationFailed"             \* ExpiredSignature
     [] NBF_CHECKED /\ t.nbf \in {"notyet", "far"} -> "VerificationFailed"   \* ImmatureSignature
     [] t.aud \in {"other", "arr_other", "arr_empty"} -> "VerificationFailed"  \* InvalidAudience
